@@ -88,7 +88,7 @@ Spec == Init /\ [][Next]_vars /\ WF_vars(Scan \/ Done)
 \* ---- invariants -------------------------------------------------------------
 \* every branch consumes at least one character: the scanner terminates
 Progress == [][phase = "scan" /\ phase' = "scan" => pos' > pos]_vars
-Terminates == <>(phase = "done" \/ phase = "build")
+Terminates == (phase = "scan") ~> (phase = "done")
 Pinned(t) == t.k \in {"VerbatimToken", "VerbatimEnv", "ErrorToken"}
 \* text of a token = the source slice at its offset (error tokens carry the mark)
 SliceEq == \A i \in 1..Len(toks) : toks[i].k # "ErrorToken" => SubSeq(src, toks[i].p + 1, toks[i].p + Len(toks[i].t)) = toks[i].t
